@@ -95,7 +95,9 @@ def variants(p):
 def run(tier):
     rep = common.Report('C14', tier, 'translation_validation')
     common.build_driver()
-    progs = families2.g_call(tier) + extra_programs()
+    import families4
+    # two returns leaving different constants, then a statement that needs one of them (register knowledge at the end-of-inline label)
+    progs = families2.g_call(tier) + extra_programs() + [p for p in families4.g_jmp_label(tier) if '/fn-' in p.pid]
     allstats, samples = {}, []
     for lvl in (['-O1'], ['-O0']):
         stats, smp, results = runner.relational(rep, progs, variants, 'none', args_base=lvl,
